@@ -1464,3 +1464,412 @@ def gen_locv_cdt(quick, thorough):
     return g
 
 PROPS["C09"]["gen"] = gen_union(PROPS["C09"]["gen"], gen_locv_cdt(200, 2000))
+
+def gen_C20_quality(quick, thorough):
+    """inputs on which the quality guarantee of a completed refinement applies: hull = rectangle (all fixed edges meet at 90 degrees), optional
+    axis-parallel constraints (inner rectangle / cross), free points incl. exactly isosceles obtuse triples (ties in the shortest-edge selection)
+    under the eight lattice symmetries, angle limit 20 degrees or less strict, max area sometimes, a vertex budget large enough to finish"""
+    def g(r, tier):
+        out = []
+        for i in range(n_cases(tier, quick, thorough)):
+            kind, scalar, hint = gen.pick_cfg(r, ("cdt",), 0.1)
+            c = Case("u%d" % i, "cdt", scalar, hint)
+            c.meta = {"style": "refine-quality", "kind": "cdt", "scalar": scalar, "hint": hint}
+            W, H = r.range(8, 30), r.range(8, 30)
+            sx, sy, sw = r.choice([1, -1]), r.choice([1, -1]), r.chance(0.5)
+            def T(x, y):
+                x, y = sx * x, sy * y
+                return (float(y), float(x)) if sw else (float(x), float(y))
+            pts = [(0, 0), (W, 0), (W, H), (0, H)]
+            sparse = r.chance(0.6)                             # most cases: one triple and nothing else, so that the skinny face survives until it is examined
+            for _ in range(1 if sparse else r.range(0, 3)):    # isosceles obtuse triples: base angles atan(b/a) between 10 and 20 degrees
+                a, b = r.choice([(3, 1), (4, 1), (5, 1), (6, 2), (7, 2), (8, 2)])
+                if 2 * a + 2 > W or b + 2 > H:
+                    continue
+                for _try in range(20):
+                    x = r.range(a + 1, W - a - 1); y = r.range(1, H - b - 1)
+                    up = r.choice([1, -1])
+                    tri = [(x - a, y if up == 1 else y + b), (x + a, y if up == 1 else y + b), (x, y + b if up == 1 else y)]
+                    o = _orient(tri[0], tri[1], tri[2])
+                    t3 = tri if o > 0 else [tri[0], tri[2], tri[1]]
+                    # the triple is a Delaunay face only if no other point is inside its circumcircle
+                    if all(_incircle(t3[0], t3[1], t3[2], q) <= 0 for q in pts if q not in tri):
+                        pts += tri
+                        break
+            for _ in range(0 if sparse else r.range(0, 4)):
+                pts.append((r.range(1, W - 1), r.range(1, H - 1)))
+            seen = []
+            for p in pts:
+                if p not in seen:
+                    seen.append(p)
+            order = list(range(len(seen)))
+            if r.chance(0.7):
+                r.shuffle(order)
+            for n_, j in enumerate(order):
+                q = T(*seen[j]); c.ins(q[0], q[1], n_ + 1)
+            if not sparse and r.chance(0.3):                   # an axis-parallel constraint from hull to hull (meets the hull at 90 degrees)
+                y = r.range(2, H - 2)
+                a, b = T(0, y), T(W, y)
+                c.add("adde", bits(a[0]), bits(a[1]), 500, bits(b[0]), bits(b[1]), 501)
+            ratio = r.choice([bits(1.4619022000815436), bits(1.4619022000815436), bits(1.5), bits(2.0), bits(3.0)])
+            maxa = r.choice(["-", "-", "-", bits(8.0), bits(20.0)])
+            c.add("refine", ratio, "-", maxa, r.choice([150, 300]), 0, r.below(2))
+            out.append(c)
+        # a configuration in which the exactly isosceles skinny face is known to survive the refinement of its surroundings (found by search
+        # for seeded change C20-4): rectangle 14 x 12, triple (4,2) (10,2) (7,1); all symmetries, random insertion orders, power-of-two scales
+        base = [(0, 0), (14, 0), (14, 12), (0, 12), (4, 2), (10, 2), (7, 1)]
+        k = 0
+        for sym in range(8):
+            for rep in range(4 if tier != "thorough" else 20):
+                kind, scalar, hint = gen.pick_cfg(r, ("cdt",), 0.1)
+                c = Case("w%d" % k, "cdt", scalar, hint); k += 1
+                c.meta = {"style": "refine-quality-isosceles", "kind": "cdt", "scalar": scalar, "hint": hint}
+                sc = 2.0 ** r.choice([0, 0, 1, -1, 3])
+                pts = []
+                for (x, y) in base:
+                    if sym & 1: x = 14 - x
+                    if sym & 2: y = 12 - y
+                    if sym & 4: x, y = y, x
+                    pts.append((x * sc, y * sc))
+                r.shuffle(pts)
+                for n_, q in enumerate(pts):
+                    c.ins(q[0], q[1], n_ + 1)
+                c.add("refine", bits(1.4619022000815436), "-", "-", 300, 0, r.below(2))
+                out.append(c)
+        return out
+    return g
+
+PROPS["C20"]["gen"] = gen_union(PROPS["C20"]["gen"], gen_C20_quality(250, 2500))
+
+def translate_case(c, dx, dy):
+    """adds (dx, dy) to every coordinate of the point-carrying operations; returns False (case unchanged) unless every sum is exact"""
+    def coords(t):
+        if t[0] in ("ins", "insh", "lrm", "loc", "loch", "locv", "nn", "bary", "nnw"):
+            return [(1, 2)]
+        if t[0] == "adde":
+            return [(1, 2), (4, 5)]
+        if t[0] == "addes":
+            return [(2 + 3 * j, 3 + 3 * j) for j in range(int(t[1]))]
+        if t[0] in ("bulk", "bulks", "bulkc", "bulkcs"):
+            return [(2 + 3 * j, 3 + 3 * j) for j in range(int(t[1]))]
+        return []
+    from fractions import Fraction
+    out = []
+    for o in c.ops:
+        t = o.split()
+        for (i, j) in coords(t):
+            for (k, dd) in ((i, dx), (j, dy)):
+                x = gen.from_bits(int(t[k]))
+                if x != x or abs(x) == float("inf"):
+                    return False
+                y = x + dd
+                if Fraction(y) != Fraction(x) + Fraction(dd) or (c.scalar == "f32" and not gen.is_f32(y)):
+                    return False
+                t[k] = str(bits(y))
+        out.append(" ".join(t))
+    c.ops = out
+    c.meta["translate"] = "%g,%g" % (dx, dy)
+    return True
+
+_gen_C18_scaled = PROPS["C18"]["gen"]
+def gen_C18_translated(r, tier):
+    out = _gen_C18_scaled(r, tier)
+    for c in out:
+        if "scale" not in c.meta and r.chance(0.35):
+            k = r.choice([8, 10]) if c.scalar == "f32" else r.choice([20, 27, 30])   # the circumcentre is only representable to ulp(offset): stay below the tolerance
+            translate_case(c, 2.0 ** k * r.choice([1, -1, 3]), 2.0 ** k * r.choice([1, -1, 0]))
+    return out
+PROPS["C18"]["gen"] = gen_C18_translated
+_gen_C19_prev = PROPS["C19"]["gen"]
+def gen_C19_translated(r, tier):
+    out = _gen_C19_prev(r, tier)
+    for c in out:
+        if "scale" not in c.meta and c.meta.get("style") not in ("cocirc-ulp", "cocirc-lattice") and r.chance(0.25):
+            k = r.choice([10, 12]) if c.scalar == "f32" else r.choice([20, 27, 30])
+            translate_case(c, 2.0 ** k * r.choice([1, -1, 3]), 2.0 ** k * r.choice([1, -1, 0]))
+    return out
+PROPS["C19"]["gen"] = gen_C19_translated
+
+# M7: executable model of natural-neighbour identification and of the vertex selection / order of the two interpolation front ends
+# (Query/NatNeighbor.v): the sequence of vertex handles of every nnw / bary result must be the model's, element for element
+PROPS["C19"]["model"] = True
+PROPS["C19"]["tags"] = PROPS["C19"]["tags"] + ["corr"]
+
+def gen_C19_m7(r, tier):
+    """M7: location classes of the interpolation front ends, for the order-exact model tie:
+    (A) empty, single-vertex, two-vertex and collinear states (sorted / shuffled insertion, optional removals): queries on every vertex,
+        on every edge interior, beyond both ends, off the line;
+    (B) full lattices of spacing 10 (optionally thinned by removals): queries on every kind of position -- vertices, inner-edge and
+        hull-edge midpoints and quarter points, cell centres (on a diagonal or exactly cocircular with both faces of the cell), points
+        exactly on the circumcircle of a cell inside a neighbouring cell or outside the hull, the same points one to three ulps
+        inside / outside, points outside the hull."""
+    out = []
+    for i in range(n_cases(tier, 240, 2400)):
+        kind, scalar, hint = gen.pick_cfg(r, ("dt", "dt", "cdt"), 0.3)
+        f32 = scalar == "f32"
+        c = Case("m%d" % i, kind, scalar, hint)
+        d = 1
+        qs = []
+        if r.chance(0.45):
+            n = r.choice([0, 1, 1, 2, 2, 3, 4, 5, 6])
+            dx, dy = r.choice([(1, 0), (0, 1), (1, 1), (2, 1), (1, -3), (-2, 5), (3, 0), (0, -2)])
+            ox, oy = r.range(-4, 4), r.range(-4, 4)
+            sc = 2.0 ** r.choice([0, 0, 0, 1, -1, 7, -7, 20, -20])
+            ts = list(range(0, 2 * n, 2))
+            if r.chance(0.4):
+                ts = sorted(set(r.range(-6, 6) * 2 for _ in range(n)))
+            order = list(ts)
+            if r.chance(0.6):
+                r.shuffle(order)
+            P = lambda t: ((ox + dx * t) * sc, (oy + dy * t) * sc)
+            for t in order:
+                x, y = P(t); c.ins(x, y, d); d += 1
+            if order and r.chance(0.3):
+                c.add("rm", "v%d" % r.below(64))
+            c.meta = {"style": "m7-degenerate", "kind": kind, "scalar": scalar, "hint": hint, "n": len(order)}
+            lo, hi = (min(ts), max(ts)) if ts else (0, 0)
+            for t in ts:
+                qs.append(P(t))
+            for t in range(lo - 3, hi + 4):
+                qs.append(P(t))                                                   # odd t: edge interiors; beyond the ends: extending
+            for _ in range(6):
+                t = r.range(lo - 2, hi + 2)
+                x, y = P(t)
+                qs.append((x - dy * sc * r.choice([1, -1, 2]), y + dx * sc * r.choice([1, -1, 2])))   # off the line
+            qs.append((0.0, 0.0))
+        else:
+            m, n = r.range(2, 4), r.range(2, 4)
+            ox, oy = 10 * r.range(-2, 2), 10 * r.range(-2, 2)
+            sc = 2.0 ** r.choice([0, 0, 0, 2, -2, 9, -9])
+            pts = [(ox + 10 * a, oy + 10 * b) for a in range(m) for b in range(n)]
+            r.shuffle(pts)
+            for (x, y) in pts:
+                c.ins(x * sc, y * sc, d); d += 1
+            for _ in range(r.choice([0, 0, 1, 2])):
+                c.add("rm", "v%d" % r.below(64))
+            c.meta = {"style": "m7-lattice", "kind": kind, "scalar": scalar, "hint": hint, "m": m, "n": n}
+            cand = []
+            for (x, y) in pts:
+                cand.append((x, y))
+            for a in range(m):
+                for b in range(n):
+                    x, y = ox + 10 * a, oy + 10 * b
+                    cand += [(x + 5, y), (x, y + 5), (x + 2.5, y), (x, y + 7.5)]              # edge mid / quarter points (inner and hull)
+                    cand += [(x + 5, y + 5)]                                                   # cell centre
+                    cand += [(x + 5 + u, y + 5 + v) for (u, v) in [(7, 1), (7, -1), (-7, 1), (-7, -1), (1, 7), (-1, 7), (1, -7), (-1, -7)]]   # on the cell's circumcircle
+                    cand += [(x + 3, y + 4), (x + 1, y + 2), (x + 5, y + 2.5)]
+            cand += [(ox - 3, oy + 5), (ox + 10 * m, oy + 5), (ox + 5, oy - 10), (ox - 10, oy - 10), (ox + 10 * (m - 1) + 0.5, oy + 5)]
+            r.shuffle(cand)
+            for (x, y) in cand[:22]:
+                fx, fy = x * sc, y * sc
+                if r.chance(0.25):
+                    j = r.choice([1, -1, 2, -2, 3])
+                    if r.chance(0.5) and fx != 0.0:
+                        fx = gen.ulp_step(fx, j, f32)
+                    elif fy != 0.0:
+                        fy = gen.ulp_step(fy, j, f32)
+                qs.append((fx, fy))
+        for (x, y) in qs:
+            if f32 and not (gen.is_f32(x) and gen.is_f32(y)):
+                continue
+            if kind == "dt":
+                c.add("nnw", bits(x), bits(y))
+            c.add("bary", bits(x), bits(y))
+        out.append(c)
+    return out
+PROPS["C19"]["gen"] = gen_union(PROPS["C19"]["gen"], gen_C19_m7)
+PROPS["C19"]["rule"] = PROPS["C19"]["rule"] + (" In addition (M7) empty, single-vertex, two-vertex and collinear states with queries on vertices, edge interiors, "
+    "beyond the ends and off the line, and full lattices of spacing 10 with queries on vertices, inner / hull edge points, cell centres, points exactly on and a few "
+    "ulps off the circumcircle of a cell, points outside; the sequence of vertex handles of every nnw / bary result is compared with the model "
+    "Query/NatNeighbor.v (tag corr).")
+
+_gen_C13_prev = PROPS["C13"]["gen"]
+def gen_C13_scaled(r, tier):
+    """the C13 cases, a quarter of them scaled by a power of two (exact): intersection formulas must not depend on absolute thresholds"""
+    out = _gen_C13_prev(r, tier)
+    for c in out:
+        if c.meta.get("style") != "split-coarse" and r.chance(0.25) and not any(o.split()[0].startswith("bulk") for o in c.ops):
+            k = r.choice([-10, -20]) if c.scalar == "f32" else r.choice([-20, -30, -40, -60, 30, 60])
+            scale_case(c, k)
+    return out
+PROPS["C13"]["gen"] = gen_C13_scaled
+
+def gen_near_vertex_cdt(quick, thorough, qops=("canc", "tryc", "confv", "lineh")):
+    """full-mantissa coordinates: a constraint c-d whose end point c is the ROUNDED image of a point of segment a-b (so c misses a-b by less
+    than an ulp and c-d properly crosses a-b right next to c); admission / conflict queries between the vertices a and b, both directions.
+    Any inexact orientation test takes c to be on a-b and misses the crossing."""
+    def g(r, tier):
+        out = []
+        for i in range(n_cases(tier, quick, thorough)):
+            kind, scalar, hint = gen.pick_cfg(r, ("cdt",), 0.0)
+            c = Case("j%d" % i, "cdt", "f64", hint)
+            c.meta = {"style": "near-vertex", "kind": "cdt", "scalar": "f64", "hint": hint}
+            from fractions import Fraction as Fr
+            def rnd(scale):
+                return (r.next() >> 11) / float(1 << 53) * scale * r.choice([1.0, -1.0])
+            s = r.choice([1.0, 2.0 ** 10, 2.0 ** 20, 2.0 ** 30])
+            a = (rnd(s), rnd(s)); b = (rnd(s), rnd(s))
+            t = 0.2 + 0.6 * (r.next() >> 11) / float(1 << 53)
+            cpt = (a[0] + t * (b[0] - a[0]), a[1] + t * (b[1] - a[1]))
+            def orient(p, q, w):
+                return (Fr(q[0]) - Fr(p[0])) * (Fr(w[1]) - Fr(p[1])) - (Fr(q[1]) - Fr(p[1])) * (Fr(w[0]) - Fr(p[0]))
+            oc = orient(a, b, cpt)
+            if oc == 0:
+                cpt = (gen.ulp_step(cpt[0], 1), cpt[1]); oc = orient(a, b, cpt)
+                if oc == 0:
+                    continue
+            # d on the other side of a-b, roughly perpendicular from c
+            nx, ny = -(b[1] - a[1]), (b[0] - a[0])
+            sgn = -1.0 if oc > 0 else 1.0
+            k = 0.1 + 0.3 * (r.next() >> 11) / float(1 << 53)
+            dpt = (cpt[0] + sgn * k * nx, cpt[1] + sgn * k * ny)
+            if orient(a, b, dpt) * oc >= 0:
+                continue
+            c.ins(a[0], a[1], 1); c.ins(b[0], b[1], 2)
+            c.add("adde", bits(cpt[0]), bits(cpt[1]), 3, bits(dpt[0]), bits(dpt[1]), 4)
+            for _ in range(r.range(0, 3)):
+                c.ins(rnd(s), rnd(s), 10 + len(c.ops))
+            for _ in range(4):
+                op = r.choice(list(qops))
+                u, v = ("V0", "V1") if r.chance(0.5) else ("V1", "V0")
+                c.add(op, u, v)
+            out.append(c)
+        return out
+    return g
+
+PROPS["C12"]["gen"] = gen_union(PROPS["C12"]["gen"], gen_near_vertex_cdt(300, 3000, qops=("canc", "tryc", "confv")))
+PROPS["C17"]["gen"] = gen_union(PROPS["C17"]["gen"], gen_near_vertex_cdt(150, 1500, qops=("lineh",)))
+PROPS["C04"]["gen"] = gen_union(PROPS["C04"]["gen"], gen_near_vertex_cdt(150, 1500, qops=("tryc", "addc")))
+
+def gen_near_corner_cdt(quick, thorough, qops=("confp", "isc", "line")):
+    """full-mantissa coordinates: point-pair queries that start strictly inside a face and leave it within an ulp of one of its corners
+    (the end point is the rounded image of start + k (corner - start)); the face's edges are constraint edges"""
+    def g(r, tier):
+        out = []
+        for i in range(n_cases(tier, quick, thorough)):
+            kind, scalar, hint = gen.pick_cfg(r, ("cdt",), 0.0)
+            c = Case("c%d" % i, "cdt", "f64", hint)
+            c.meta = {"style": "near-corner", "kind": "cdt", "scalar": "f64", "hint": hint}
+            def rnd(scale):
+                return (r.next() >> 11) / float(1 << 53) * scale * r.choice([1.0, -1.0])
+            s = r.choice([1.0, 2.0 ** 10, 2.0 ** 20, 2.0 ** 30])
+            P = [(rnd(s), rnd(s)) for _ in range(3)]
+            d = 1
+            for j in range(3):
+                p, q = P[j], P[(j + 1) % 3]
+                c.add("adde", bits(p[0]), bits(p[1]), d, bits(q[0]), bits(q[1]), d + 1); d += 2
+            for _ in range(r.range(1, 4)):
+                c.ins(rnd(2 * s), rnd(2 * s), d); d += 1
+            for _ in range(8):
+                w = [0.2 + (r.next() >> 11) / float(1 << 53) for _ in range(3)]
+                W = sum(w)
+                st = (sum(w[j] * P[j][0] for j in range(3)) / W, sum(w[j] * P[j][1] for j in range(3)) / W)
+                v = r.choice(P)
+                k = r.choice([1.5, 2.0, 3.0, 1.0, 0.5])
+                e = (st[0] + k * (v[0] - st[0]), st[1] + k * (v[1] - st[1]))
+                if r.chance(0.3):
+                    e = (gen.ulp_step(e[0], r.range(-2, 2)), gen.ulp_step(e[1], r.range(-2, 2)))
+                c.add(r.choice(list(qops)), bits(st[0]), bits(st[1]), bits(e[0]), bits(e[1]))
+            out.append(c)
+        return out
+    return g
+
+PROPS["C12"]["gen"] = gen_union(PROPS["C12"]["gen"], gen_near_corner_cdt(300, 3000, qops=("confp", "isc")))
+PROPS["C17"]["gen"] = gen_union(PROPS["C17"]["gen"], gen_near_corner_cdt(150, 1500, qops=("line",)))
+
+def gen_rm_cdt_dense(quick, thorough):
+    """CDT tear-down with many long constraints: on a dense lattice most constraint edges are not Delaunay edges, so the faces outside the hole of a
+    removed vertex are often non-Delaunay with respect to the hole's border vertices (hidden behind a constraint); every vertex is removed in turn"""
+    def g(r, tier):
+        out = []
+        for i in range(n_cases(tier, quick, thorough)):
+            kind, scalar, hint = gen.pick_cfg(r, ("cdt",), 0.1)
+            c = Case("k%d" % i, "cdt", scalar, hint)
+            c.meta = {"style": "rm-cdt-dense", "kind": "cdt", "scalar": scalar, "hint": hint}
+            gx, gy = r.range(2, 5), r.range(2, 4)
+            pts = list({(r.range(0, 2 * gx), r.range(0, 2 * gy)) for _ in range(r.range(8, 16))})
+            r.shuffle(pts)
+            d = 1
+            for (x, y) in pts:
+                c.ins(float(x), float(y), d); d += 1
+            for _ in range(r.range(5, 12)):
+                c.add("tryc", "v%d" % r.below(64), "v%d" % r.below(64))
+            live = len(pts)
+            for _ in range(r.range(3, live)):
+                c.add(r.choice(["rm", "rm", "trm"]), "v%d" % r.below(live)); live -= 1
+                if r.chance(0.3):
+                    c.add("tryc", "v%d" % r.below(64), "v%d" % r.below(64))
+            out.append(c)
+        return out
+    return g
+
+PROPS["C11"]["gen"] = gen_union(PROPS["C11"]["gen"], gen_rm_cdt_dense(600, 6000))
+PROPS["C03"]["gen"] = gen_union(PROPS["C03"]["gen"], gen_rm_cdt_dense(300, 3000))
+
+def gen_rm_cdt_hidden(quick, thorough):
+    """removal of an interior CDT vertex whose hole has a border vertex hidden behind a constraint from a face adjacent to the hole (the face is
+    constrained Delaunay but has that border vertex inside its circumcircle): a configuration found by search for seeded change C11-4, under the
+    eight lattice symmetries, exact scalings / translations, the original and shuffled insertion orders"""
+    base = [(5, 7), (5, 4), (8, 2), (5, 5), (2, 6), (6, 1), (9, 1), (4, 4)]
+    cons = [((8, 2), (2, 6)), ((4, 4), (9, 1))]
+    def g(r, tier):
+        out = []
+        k = 0
+        for sym in range(8):
+            for rep in range(quick // 8 if tier != "thorough" else thorough // 8):
+                kind, scalar, hint = gen.pick_cfg(r, ("cdt",), 0.1)
+                c = Case("g%d" % k, "cdt", scalar, hint); k += 1
+                c.meta = {"style": "rm-cdt-hidden", "kind": "cdt", "scalar": scalar, "hint": hint}
+                sc = 2.0 ** r.choice([0, 0, 1, -2, 5])
+                tx, ty = (r.range(-8, 8), r.range(-8, 8)) if r.chance(0.5) else (0, 0)
+                def T(p):
+                    x, y = p
+                    if sym & 1: x = 10 - x
+                    if sym & 2: y = 10 - y
+                    if sym & 4: x, y = y, x
+                    return ((x + tx) * sc, (y + ty) * sc)
+                order = list(range(len(base)))
+                if rep > 0 and r.chance(0.7):
+                    r.shuffle(order)
+                for n_, j in enumerate(order):
+                    q = T(base[j]); c.ins(q[0], q[1], n_ + 1)
+                idx = {base[j]: n_ for n_, j in enumerate(order)}
+                for (p, q) in cons:
+                    c.add("addc", "V%d" % idx[p], "V%d" % idx[q])
+                c.add(r.choice(["rm", "rm", "trm"]), "V%d" % idx[(8, 2)])
+                for _ in range(r.range(0, 3)):
+                    c.add("rm", "v%d" % r.below(64))
+                out.append(c)
+        return out
+    return g
+
+PROPS["C11"]["gen"] = gen_union(PROPS["C11"]["gen"], gen_rm_cdt_hidden(48, 480))
+PROPS["C03"]["gen"] = gen_union(PROPS["C03"]["gen"], gen_rm_cdt_hidden(48, 480))
+
+def gen_bulk_nn(quick, thorough):
+    """nearest_neighbor on bulk-loaded triangulations of small integer point sets (squared distances exact): many queries per case, all over
+    the bounding box enlarged by a margin"""
+    def g(r, tier):
+        out = []
+        for i in range(n_cases(tier, quick, thorough)):
+            kind, scalar, hint = gen.pick_cfg(r, ("dt",), 0.1)
+            c = Case("a%d" % i, "dt", scalar, hint)
+            c.meta = {"style": "bulk-nn", "kind": "dt", "scalar": scalar, "hint": hint}
+            G = r.choice([6, 6, 10, 20])
+            pts = list({(r.range(-G, G), r.range(-G, G)) for _ in range(r.range(5, 18))})
+            toks = []
+            for j, (x, y) in enumerate(pts):
+                toks += [bits(float(x)), bits(float(y)), j + 1]
+            c.add(r.choice(["bulk", "bulks"]), len(pts), *toks)
+            if G == 6:
+                for x in range(-G - 3, G + 4):                 # every lattice point of the enlarged bounding box
+                    for y in range(-G - 3, G + 4):
+                        c.add("nn", bits(float(x)), bits(float(y)))
+            else:
+                for _ in range(60):
+                    c.add("nn", bits(float(r.range(-G - 6, G + 6))), bits(float(r.range(-G - 6, G + 6))))
+            out.append(c)
+        return out
+    return g
+
+PROPS["C15"]["gen"] = gen_union(PROPS["C15"]["gen"], gen_bulk_nn(1600, 8000))
